@@ -242,7 +242,13 @@ def every_start_probed(ctx, cfg, fs):
         raise Broken('ParseAdjacent::eval: scan loop / probe not found')
     sw = switch_on_call(b, nx[0])
     body_ = sw.target('Some') if sw is not None else None
-    probe = [e for e in evs if body_ is not None and e.bb in reachable_edges(b, body_, avoid=[nx[0].bb]) and all(b.dominates(e.bb, o.bb) or not b.reaches(e.bb, [o.bb]) for o in evs)]
+    # the probe is the evaluation that only ever sees the single-item window (as in `window` above)
+    by = {}
+    for (bb_, sid_, sc_) in eval_scopes(b):
+        by.setdefault(bb_, set()).add(sc_)
+    probe = [e for e in evs if by.get(e.bb) and by[e.bb] <= {('narrow', 'range:start..start+width')}]
+    if not probe:
+        probe = [e for e in evs if body_ is not None and e.bb in reachable_edges(b, body_, avoid=[nx[0].bb]) and all(b.dominates(e.bb, o.bb) or not b.reaches(e.bb, [o.bb]) for o in evs)]
     if not probe:
         raise Broken('ParseAdjacent::eval: probe evaluation not identified')
     pb = probe[0].bb
@@ -252,7 +258,7 @@ def every_start_probed(ctx, cfg, fs):
         if b.term(x)['k'] != 'switch': continue
         s_ = Switch(b, x)
         for o_, t_ in s_.edges.items():
-            if nx[0].bb in reachable_edges(b, t_, avoid=[pb]) and pb in {y for o2, t2 in s_.edges.items() if t2 != t_ for y in reachable_edges(b, t2)}:
+            if nx[0].bb in reachable_edges(b, t_, avoid=[pb]) and pb in {y for o2, t2 in s_.edges.items() if t2 != t_ for y in reachable_edges(b, t2, avoid=[nx[0].bb])}:
                 by_len = s_.kind in ('bool', 'int') and any(r.kind == 'bin' and any(q.kind == 'call' and q.call.is_(r'^args::inner::State::len$') for k_ in ('a', 'b') for q in provenance(b, r.extra[k_], r.site[0], r.site[1], through=None)) for r in (s_.roots or []))
                 by_len = by_len or (s_.kind in ('bool', 'int') and any(r.kind == 'call' and r.call.is_(r'^args::inner::State::(len|is_empty)$') for r in (s_.roots or [])))
                 skips.append((b.where(x), by_len))
